@@ -1,8 +1,52 @@
 """C03 - on-disk structures stay consistent after every operation: the extracted structural-invariant checker
 (Spec/Wf.v over the independent decoder Spec/Abs.v) is evaluated on the implementation's raw image after EVERY
 operation of generated histories (namespace + file I/O, user errors, tiny volumes, tiny fixed roots)."""
-import vlib, sessions
+import vlib, sessions, namelib
+from vlib import hexs
 from props import sess_common as sc
+from props import cdir_corr
+
+
+def respell_sessions(confs):
+    """the D27 situation (tools/props/cdir_corr.RESPELL: an entry whose long name folds to the alias of another entry placed in
+    front of it, then a rename of that entry onto its own alias), in the root and in a sub-directory: wf_issues after every op"""
+    out = []
+    for fi, fam in enumerate(cdir_corr.RESPELL):
+        for sub in (False, True):
+            label, size, fmt = confs[fi % len(confs)]
+            head = ["dev %d 0" % size, "wlog 0", fmt, "pages", "wlog 1", "mount 1 0 lossy"]
+            lines = ["create_dir 0 %s 1" % hexs("d"), "drop_dir 1"] if sub else []
+            h = 10
+            for op in cdir_corr.respell_ops(fam, "d/" if sub else "")[0]:
+                if op[0] == "create_file":
+                    lines += ["create_file 0 %s %d" % (hexs(op[1]), h), "drop_file %d" % h]; h += 1
+                elif op[0] == "remove":
+                    lines.append("remove 0 %s" % hexs(op[1]))
+                else:
+                    lines.append("rename 0 %s 0 %s" % (hexs(op[1]), hexs(op[2])))
+            out.append(head + lines + ["list 0", "unmount"])
+    return out
+
+
+def fold_table_tie(rep):
+    """Proofs/DupLongProofs.wf_fold_agrees: the judge's folding (WfFold.wf_fold upper) agrees with the library's matching for
+    EVERY table - provided both are run with the SAME table.  The judge loads the dump `uppertable` (sessions.upper_table), the
+    model runs load `uppertable_colon` (namelib.upper_table): both must be the same map, taken from the executor under test."""
+    mtab, _ = namelib.upper_table("default")
+    jtab = {}
+    for l in open(sessions.upper_table("default")):
+        t = l.replace(":", " ").split()
+        if t:
+            jtab[int(t[0])] = [int(x) for x in t[1:]]
+    rep.count()
+    expanding = sum(1 for v in mtab.values() if len(v) > 1)
+    rep.cov["fold_table"] = {"entries": len(mtab), "multi_character_expansions": expanding, "judge_table_equals_model_table": jtab == mtab}
+    if jtab != mtab or not mtab:
+        diff = sorted(k for k in set(jtab) | set(mtab) if jtab.get(k) != mtab.get(k))[:5]
+        rep.violation("the case table the judge folds long names with differs from the table the library model is run with "
+                      "(first differing code points %r): the premise `same table` of C03_fold_agrees_judge is not met" % diff,
+                      {"theorem_or_correspondence": "C03_fold_agrees_judge / C03_vol_create_keeps_wf_judge (Spec/WfFold.v) vs ocaml/judge.ml fold_units"},
+                      nofail=True)
 
 PROP_FILES = ["Props/C03.v"]
 
@@ -28,6 +72,10 @@ def run(rep, tier, seed):
         scripts.append(sessions.fat32_high_cluster_session(rng))
     # the standard script on the boundary volumes (quick: the small ones; the invariants are evaluated after every call)
     scripts += [sc_ for _, sc_ in sessions.matrix_sessions(rng, tier, lost_free=True, small_only=(tier == "quick"))]
+    nresp = len(scripts)
+    scripts += respell_sessions(confs)
+    nresp = len(scripts) - nresp
+    fold_table_tie(rep)
     judged = sessions.run_judged(scripts, flags=("wf", "tree"), shards=16)
     checked_states = 0
     for jd in judged:
@@ -38,6 +86,7 @@ def run(rep, tier, seed):
         if sc.report(rep, jd, f, ("wf",), "C03"):
             rep.distinct(tuple(jd.script[6:]))
     rep.cov["states_checked"] = checked_states
+    rep.cov["respell_second_match_sessions_D27"] = nresp
     rep.cov["traces_validated_against_impl"] = len(judged)
     rep.cov["distribution"] = sc.distribution(judged)
     rep.cov["rule"] = ("seeded random admissible histories (create/open/list/remove/rename/read/write/seek/truncate/flush, ~10% invalid "
